@@ -107,6 +107,9 @@ def run(tier):
     marked.append(("o513a", "span-text:513:total", "fn increment(counter: &i32)\n{\n\tcounter = counter + 1;\n}\nfn main()\n{\n\tvar total: i32 = 0;\n\tincrement(total);\n}\n"))
     marked.append(("o513b", "known-offender:513", "fn swap(a: &i32, b: &i32)\n{\n}\nfn main()\n{\n\tvar p: i32 = 0;\n\tvar q: i32 = 1;\n\tswap(&p,\n\t\tq); // HERE\n}\n"))
     marked.append(("o512b", "known-offender:512", "fn take(a: i32, b: bool)\n{\n}\nfn main()\n{\n\tvar p: i32 = 0;\n\ttake(p,\n\t\tp); // HERE\n}\n"))
+    marked.append(("o358a", "known-offender:358", "extern fn checksum(\n\tdata: []u128, // HERE\n\tlength: usize\n) -> u64;\nfn main()\n{\n}\n"))
+    marked.append(("o358b", "known-offender:358", "extern fn flags(\n\tcount: usize,\n\tbits: []bool // HERE\n);\nfn main()\n{\n}\n"))
+    marked.append(("o358c", "known-offender:358", "extern fn wide(\n\tvalue: u128 // HERE\n);\nfn main()\n{\n}\n"))
     # the returned value is the offender (E333: the value does not have the declared return type)
     marked.append(("orv", "known-offender:333", "fn foo() -> i32\n{\n\tvar x: bool = true;\n\treturn: x // HERE\n}\nfn main()\n{\n}\n"))
     marked.append(("orv2", "known-offender:333", "fn foo(a: i32) -> bool\n{\n\tif a == 1\n\t{\n\t\ta = 2;\n\t}\n\treturn: a // HERE\n\n\n}\nfn main()\n{\n}\n"))
